@@ -47,9 +47,10 @@ func (s *mstate) key() string {
 }
 
 type mcfg struct {
-	Dotu  bool
-	Auth  bool
-	Msize uint32
+	Dotu    bool
+	Auth    bool
+	Msize   uint32
+	ErrKind string // kind of error value the implementation's auth callbacks return
 }
 
 // mevent is one request of the history alphabet.
@@ -416,6 +417,7 @@ func runHistory(c mcfg, evs []mevent, probeFids []uint32, probeLast int) *histOb
 	ho := &histObs{}
 	body := func() {
 		fs := NewFS()
+		fs.ErrKind = c.ErrKind
 		ho.FS = fs
 		h := NewSrvH(fs, SrvOpt{Msize: c.Msize, Dotu: c.Dotu, Auth: c.Auth})
 		cl := h.Connect()
